@@ -93,10 +93,17 @@ def defs_smt(w, used):
             out.append(f"(<= (- 1.0) g{i} 1.0)")
         elif k == 'exp':
             out.append(f"(> g{i} 0.0)")
+            for base, ei in w.exp_base.items():      # assumed contract: exp is increasing with exp(0) = 1
+                if ei == i:
+                    out.append(f"(= (> g{i} 1.0) (> g{base} 0.0))")
+                    out.append(f"(= (< g{i} 1.0) (< g{base} 0.0))")
+                    sub.add(base)
         elif k == 'fun':
             name, arg = w.info[i]
             if name in ('arccosh', 'arccos'):
                 out.append(f"(>= g{i} 0.0)")
+            if name == 'arctan2':
+                out.append(f"(<= (- 3.141592653589794) g{i} 3.141592653589794)")
         for j in sub:
             if j not in done:
                 todo.append(j)
